@@ -179,7 +179,7 @@ def rand_gv(rng):
 
 def rand_engine_scenario(rng, *, nsends=None, provs=None, rtc=None, allow=None, coro=0.0,
                          nested=0.4, fail=0.3, driver="sync", yields=0, nstates=None, dense=0.5,
-                         unknown=("nope",), apis=None, **defkw):
+                         unknown=("nope",), apis=None, values_p=0.3, twin_p=0.2, **defkw):
     provs = provs if provs is not None else rng.choice(
         [["sm"], ["sm"], ["sm", "model"], ["sm", "model", "l1"], ["sm", "l1", "l2"]])
     d = rand_def(rng, provs=tuple(provs), coro=coro, yields=yields, nstates=nstates, dense=dense, **defkw)
@@ -220,8 +220,20 @@ def rand_engine_scenario(rng, *, nsends=None, provs=None, rtc=None, allow=None, 
         if has_coro and yields:
             for cb in d["cbs"]:
                 cb["yields"] = 0
-    return {"classes": [d], "steps": steps, "script": script, "failAt": fail_at, "budget": budget,
-            "ni": 3, "driver": driver}
+    scn = {"classes": [d], "steps": steps, "script": script, "failAt": fail_at, "budget": budget,
+           "ni": 3, "driver": driver}
+    # state values of every kind (0, "", (), False, enum members ...): what a state's value is changes nothing
+    if rng.random() < values_p:
+        scn["value_scheme"] = assign_values(rng, d)
+    # a second machine of the same class, only there to lend its event OBJECTS: sm.send(other.events[k]) is a send to sm
+    if rng.random() < twin_p and not fail_at:
+        steps.insert(1, {"op": "new", "i": 2, "cls": 1, "opt": dict(opt), "stored": "", "provs": provs, "gv": rand_gv(rng)})
+        for st in steps[2:]:
+            if st["op"] == "call" and st.get("api") == "send" and st["ev"] in evs and rng.random() < 0.6:
+                st["api"] = "send_from"
+                st["j"] = 2
+        scn["lender"] = True
+    return scn
 
 
 def nonrtc_nesting_scenario(rng, events=None, guards=True):
